@@ -70,7 +70,6 @@ Variable cert_round : Cert -> N.
 Variable contents_ok : Block -> bool.
 Variable proto_supported : Block -> bool.
 Variable authenticate : Block -> Cert -> bool.
-Variable blk_id : Block -> N.
 Variable cfg : config.
 Variable lat0 : N.
 
@@ -383,6 +382,35 @@ Proof.
     destruct (trace_ok_In _ _ Ht Ha) as [tl Hx]. cbn in Hx. now symmetry.
 Qed.
 
+(* ------------------------------------------------------------------ the theorems about runs *)
+Theorem written_implies_checked : forall ls st l2 l1 r b c lat res v,
+  Run (init lat0) ls = Some st ->
+  s_trace st = l2 ++ EAdd r b c lat res v :: l1 ->
+  blk_round b = r /\
+  (vp = true -> In (EContents r b true) l1 /\ contents_ok b = true) /\
+  (vc = true -> In (EAuth r b c true) l1 /\ authenticate b c = true).
+Proof.
+  intros ls st l2 l1 r b c lat res v H Hs.
+  destruct (reachable_inv _ _ H) as (Ht & _ & _).
+  eapply trace_written_implies_checked; eauto.
+Qed.
+
+(* the default configuration (both switches on): unconditional *)
+Theorem written_implies_checked_default : forall ls st l2 l1 r b c lat res v,
+  vp = true -> vc = true ->
+  Run (init lat0) ls = Some st ->
+  s_trace st = l2 ++ EAdd r b c lat res v :: l1 ->
+  blk_round b = r /\
+  In (EContents r b true) l1 /\ contents_ok b = true /\
+  In (EAuth r b c true) l1 /\ authenticate b c = true.
+Proof.
+  intros ls st l2 l1 r b c lat res v Hp Hc H Hs.
+  destruct (written_implies_checked _ _ _ _ _ _ _ _ _ _ H Hs) as (H1 & H2 & H3).
+  destruct (H2 Hp). destruct (H3 Hc). tauto.
+Qed.
+
+Variable blk_id : Block -> N.
+
 (* the ledger's call log as the monitor of the harness would record it *)
 Definition log_of_event (e : event) : list wlog :=
   match e with
@@ -429,18 +457,6 @@ Proof.
       now rewrite E1, E2.
 Qed.
 
-(* ------------------------------------------------------------------ the theorems about runs *)
-Theorem written_implies_checked : forall ls st l2 l1 r b c lat res v,
-  Run (init lat0) ls = Some st ->
-  s_trace st = l2 ++ EAdd r b c lat res v :: l1 ->
-  blk_round b = r /\
-  (vp = true -> In (EContents r b true) l1 /\ contents_ok b = true) /\
-  (vc = true -> In (EAuth r b c true) l1 /\ authenticate b c = true).
-Proof.
-  intros ls st l2 l1 r b c lat res v H Hs.
-  destruct (reachable_inv _ _ H) as (Ht & _ & _).
-  eapply trace_written_implies_checked; eauto.
-Qed.
 
 Theorem model_spec_walk : forall ls st,
   Run (init lat0) ls = Some st ->
@@ -469,4 +485,36 @@ Proof.
   - cbn in He. destruct He as (_ & Hb). lia.
 Qed.
 
+
+(* if certificates cannot be forged (a certificate authenticates at most the agreed block of its
+   round -- agreement safety + signature unforgeability, C01/C02), catchup writes exactly the
+   agreed block *)
+Theorem written_is_agreed : forall (agreed : N -> N) ls st l2 l1 r b c lat res v,
+  (forall b c, authenticate b c = true -> blk_id b = agreed (blk_round b)) ->
+  vc = true ->
+  Run (init lat0) ls = Some st ->
+  s_trace st = l2 ++ EAdd r b c lat res v :: l1 ->
+  blk_id b = agreed r.
+Proof.
+  intros agreed ls st l2 l1 r b c lat res v Hun Hc H Hs.
+  destruct (written_implies_checked _ _ _ _ _ _ _ _ _ _ H Hs) as (H1 & _ & H3).
+  destruct (H3 Hc) as [_ Ha]. rewrite <- H1. exact (Hun b c Ha).
+Qed.
+
+Lemma ids_eqb_refl : forall l, ids_eqb l l = true.
+Proof. induction l as [|x t IH]; cbn; [reflexivity|]. now rewrite N.eqb_refl, IH. Qed.
+
+(* the executable monitor predicate accepts the call log of every run of the model *)
+Theorem model_spec_ok : forall ls st,
+  Run (init lat0) ls = Some st ->
+  spec_ok vp vc lat0 (chron_log (s_trace st)) (s_latest st)
+          (map wl_id (filter wl_ok (chron_log (s_trace st)))) = true.
+Proof.
+  intros ls st H. unfold spec_ok. rewrite (model_spec_walk _ _ H).
+  now rewrite N.eqb_refl, ids_eqb_refl.
+Qed.
+
 End Proofs.
+
+Arguments chron_log {Block Cert}.
+Arguments log_of_event {Block Cert}.
